@@ -287,6 +287,15 @@ func subjectFor(r *mon.Rec, kind string, idx int, typed map[int]string) subject 
 			case 1:
 				p.ServerHostName = string(gen4.Bytes(rng, 64+rng.IntN(10)))
 				p.BootFileName = string(gen4.Bytes(rng, 128+rng.IntN(10)))
+			case 2: // the option map is the caller's: it may hold the codes that are not options, End (255) and Pad (0)
+				p.Options[255] = []byte{}
+				if rng.IntN(2) == 0 {
+					p.Options[82] = gen4.AgentInfo(rng, 12)
+				}
+			case 3:
+				p.Options[0] = gen4.Bytes(rng, rng.IntN(4))
+				p.Options[255] = gen4.Bytes(rng, rng.IntN(3))
+				p.Options[82] = gen4.AgentInfo(rng, 6)
 			}
 			return opsOf(p)
 		}, true}
